@@ -23,6 +23,8 @@ from concurrent.futures import ThreadPoolExecutor
 VERIF = os.path.dirname(os.path.dirname(os.path.abspath(__file__)))
 REPO = os.environ.get("VERIF_REPO", "/repo")
 SCRATCH = os.environ.get("VERIF_SCRATCH", "/var/tmp/verif")
+# where evidence/ and out/replays/ are written (mutant runs redirect it so that they never overwrite real evidence)
+RESULTS = os.environ.get("VERIF_RESULTS", os.path.dirname(os.path.dirname(os.path.abspath(__file__))))
 MODPATH = "github.com/basecomplextech/spec"
 NCPU = int(os.environ.get("VERIF_NCPU", str(os.cpu_count() or 4)))
 
@@ -298,7 +300,7 @@ class Check:
 def finish(prop, level, tier, seed, merged, failures, assumptions, t0, extra_cov=None):
     """apply known findings, write evidence, print lines, return exit code."""
     known = load_known()
-    outdir = os.path.join(VERIF, "out", "replays", prop)
+    outdir = os.path.join(RESULTS, "out", "replays", prop)
     shutil.rmtree(outdir, ignore_errors=True)
     os.makedirs(outdir, exist_ok=True)
     seen_sig = {}
@@ -357,8 +359,8 @@ def finish(prop, level, tier, seed, merged, failures, assumptions, t0, extra_cov
         "property_id": prop, "tier": tier, "seed": seed, "level": level, "coverage": cov,
         "assumptions": assumptions, "wall_s": round(time.time() - t0, 2), "violations": len(new_viol),
     }
-    os.makedirs(os.path.join(VERIF, "evidence"), exist_ok=True)
-    with open(os.path.join(VERIF, "evidence", prop + ".json"), "w") as f:
+    os.makedirs(os.path.join(RESULTS, "evidence"), exist_ok=True)
+    with open(os.path.join(RESULTS, "evidence", prop + ".json"), "w") as f:
         json.dump(ev, f, indent=1)
     log("vcheck: %s tier=%s evaluations=%d distinct=%d states=%d exhaustive=%s violations=%d known=%d wall=%.1fs" % (
         prop, tier, merged["evaluations"], merged["distinct"], merged["states"], cov["exhaustive"], len(new_viol), len(known_hit), time.time() - t0))
